@@ -9,7 +9,7 @@ parameter; what a delegated phase reports is characterised in C15).
 import Pko.Lemmas.ObjectSet
 
 namespace Pko.Props.C03
-open Pko.Kube Pko.Model.Phase Pko.Model.ObjectSet
+open Pko.Kube Pko.Model.Phase Pko.Model.ObjectSet Pko.Model.Status
 
 abbrev RemoteRec := PhaseSpec → World → World × Except PassErr (List CRef × Bool)
 
